@@ -1132,6 +1132,12 @@ func registerStubs(w *World) {
 		}
 		return in.nativeErr(err)
 	}
+	S["(*encoding/json.Decoder).More"] = func(in *Interp, fn *ssa.Function, a []Value) Value {
+		return BoolC(decOf(in, a[0]).More())
+	}
+	S["(*encoding/json.Decoder).InputOffset"] = func(in *Interp, fn *ssa.Function, a []Value) Value {
+		return IntC(decOf(in, a[0]).InputOffset())
+	}
 	S["(*encoding/json.Decoder).Token"] = func(in *Interp, fn *ssa.Function, a []Value) Value {
 		_, err := decOf(in, a[0]).Token()
 		// the token value itself is never used by the code under test
